@@ -37,6 +37,7 @@ func runC06(l *core.Ledger) {
 	l.Rule("C06-P4", "handlers of one-way methods ignore the reply channel and contain no SendMessage (generated + template)")
 	l.Rule("C06-P5", "send confirmation: a deferred closure registered in sendMsg's entry block, guarded only by waitForSend = callType != nil && !noSendWaiting; who-may-write callOptions.callType = getCallOptions")
 	l.Rule("C06-P9", "the per-node function is handed proto.Clone of the caller's request, never the request itself (the generated documentation promises a copy; the request is shared by all nodes' messages until the senders marshal it)")
+	l.Rule("C06-P10", "with WithNoSendWaiting a one-way call returns without waiting for the connection: the hand-off to the node's sender does not wait for the sender while the sender can be inside a connection attempt (a queue with guaranteed room, or a hand-off that does not block)")
 	l.Rule("C06-P7", "a reachable node gets the message: the sender tries to (re)connect for every request while the node is not connected, and that attempt is real (C10-N1 re-run)")
 	l.Rule("C06-P8", "gRPC does not replay the node stream: the dial options the library itself adds configure no service config with a retry or hedging policy (a transparently retried stream re-sends the buffered one-way messages)")
 	l.Rule("C06-P6", "generated one-way stubs forward in, opts... and wrap the per-node function as f(req.(*In), nid)")
@@ -51,6 +52,7 @@ func runC06(l *core.Ledger) {
 	l.With(map[string]string{"C02-T4": "C06-P2"}, func() { c02T4(l, r) })
 	l.With(map[string]string{"C10-N1": "C06-P7"}, func() { c10N1(l, r) })
 	c06P8(l, r)
+	c06P10(l, r)
 	l.With(map[string]string{"C03-F3": "C06-P2"}, func() { c03F2F3(l, r) })
 	c06P3(l, eps)
 	c06P4(l)
@@ -597,4 +599,56 @@ func c06P8(l *core.Ledger, r *rt) {
 	if n == 0 {
 		l.OK("C06-P8", "gorums/dial-options", token.NoPos, "the library adds no service config to its dial options")
 	}
+}
+
+// c06P10: the no-send-waiting path still hands the request to the sender
+// through enqueue's blocking select. The queue has the capacity of the
+// send-buffer option, 0 by default, and the sender (re)dials synchronously
+// between two dequeues: with a blocking dial (grpc.WithBlock) the caller waits
+// for the previous message's connection attempt.
+func c06P10(l *core.Ledger, r *rt) {
+	eq := findEnqueueFn(l, r)
+	sfn, _, _ := findSenderFn(l, r)
+	if eq == nil || sfn == nil {
+		l.Unknown("C06-P10", "anchor/enqueue", token.NoPos, "enqueue or sender not found")
+		return
+	}
+	// (1) a blocking hand-off
+	var handoff *ssa.Select
+	sx.AllInstrs(eq, func(_ sx.Node, in ssa.Instruction) {
+		if s2, ok := in.(*ssa.Select); ok && s2.Blocking {
+			for _, st := range s2.States {
+				if st.Dir == types.SendOnly && isRequestChan(st.Chan.Type()) {
+					handoff = s2
+				}
+			}
+		}
+	})
+	// (2) the queue can be unbuffered
+	canBeUnbuffered := false
+	for _, f := range allFuncs(l.Prog, r.pkg) {
+		sx.AllInstrs(f, func(_ sx.Node, in ssa.Instruction) {
+			mc, ok := in.(*ssa.MakeChan)
+			if !ok || !isRequestChan(mc.Type()) {
+				return
+			}
+			if c, isC := mc.Size.(*ssa.Const); isC && c.Value != nil && constant.Sign(c.Value) > 0 {
+				return
+			}
+			canBeUnbuffered = true
+		})
+	}
+	// (3) the sender dials between two dequeues
+	dials := ""
+	walkBlocking(sfn, func(op blockOp) {
+		if op.kind == "dial" && dials == "" {
+			dials = strings.Join(op.chain, " → ")
+		}
+	})
+	key := fnKey(eq) + "/no-send-waiting-hand-off"
+	if handoff == nil || !canBeUnbuffered || dials == "" {
+		l.OK("C06-P10", key, eq.Pos(), "the hand-off does not wait for a sender that may be dialling")
+		return
+	}
+	l.Bad("C06-P10", key, handoff.Pos(), "with WithNoSendWaiting the caller still hands its request to the node's sender through a blocking select on a queue that is unbuffered by default (WithSendBufferSize), and the sender (re)dials synchronously between two dequeues ("+dials+"): with a blocking dial (grpc.WithBlock) to a silent node every no-send-waiting call waits for the previous message's connection attempt - up to the dial timeout - although the option promises a return without waiting for the connection")
 }
